@@ -2,13 +2,23 @@
 
 Real side: `qtoggleserver.core.expressions.parse(self_id, text, role)`, `str(expr)`, `expr.get_deps()`, the class
 tree (`args`, `port_id`), `ExpressionParseError.to_json()['reason']`; a slice of the cases additionally goes through
-a real port's `set_attr('expression', …)` / `get_attr('expression')` / disable + enable (re-parse of the stored text).
-Model side: QtVerif.Model.Parse via Driver/C03.lean; the live FUNCTIONS registry (names, NAME, ENABLED, MIN/MAX_ARGS,
-ARG_KINDS, DEPS) and the table of non-ASCII decimal digits are extracted by introspection and handed to the driver.
+a real port's `set_attr('expression', …)` / `get_attr('expression')` / disable + enable (re-parse of the stored text);
+another slice are SEQUENCES of submissions on one port (kind 'seq': an accepted text, then whitespace mutations of exactly
+the text the port has in place, legal re-spacings, single-token mutations, other texts, clear, re-enable, restart from
+the persisted record).
+Model side: QtVerif.Model.Parse via Driver/C03.lean; the live FUNCTIONS registry (names, NAME, MIN/MAX_ARGS, ARG_KINDS,
+DEPS) and the table of non-ASCII decimal digits are extracted by introspection and handed to the driver. Whether a
+function is ENABLED is NOT read from the live classes (the parser reads that very attribute): it is the documented
+enabling condition evaluated on the hub configuration the harness has set up — HISTORY is known iff the persistence
+driver supports samples and core.history_support is on, every other function is known — and cases run on a hub with
+history and on hubs without (driver without samples support / history_support off / both).
 Oracle on the real observations: (a) a text produced by the grammar generator (any whitespace layout) is accepted
 with exactly the generated tree and dependencies; (b) for every accepted text, str(parse(str(parse(s)))) ==
 str(parse(s)), same class tree, same dependencies, same literal values after the re-parse; (c) accept/reject and the
-tree agree with the Lean grammar `Derives` (decided by the model, proved sound and complete for it).
+tree agree with the Lean grammar `Derives` (decided by the model, proved sound and complete for it); (d) on a port, every
+submission — whatever expression is in place — is accepted iff the grammar accepts the submitted text, the accepted
+expression is the one the grammar gives, and the text reported / persisted afterwards parses to the expression that is
+live on the port (also after a restart from the persisted record).
 """
 import asyncio
 import math
@@ -61,13 +71,24 @@ class C03(Prop):
             'str.isspace characters) or the canonical ", " layout; single-token mutations of such texts (dropped/added/'
             'doubled parentheses and commas, unknown/misspelt/disabled names, arity -1/+1, wrong argument kinds, illegal '
             'and look-alike characters, whitespace inside tokens and inside empty parentheses, trailing garbage, prefix '
-            'swaps); token-soup garbage; literal fuzz over the numeric alphabet. A case is non-trivial when the text '
-            'contains a call or is rejected; distinct = distinct (text outcome) pairs')
+            'swaps); token-soup garbage; literal fuzz over the numeric alphabet; well-formed texts calling (at top level '
+            'or nested) a function that is not available on the hub of the case. Every case runs on one of four hub '
+            'configurations: history on (persistence driver with samples support + core.history_support), or off by '
+            'the setting, by the driver, or both. 3 % of the cases are sequences of 3-7 submissions on one real port: '
+            'an accepted text, then whitespace inserted inside tokens of / anywhere in exactly the text in place '
+            '(canonical or as reported), the same text again, all whitespace removed, single-token mutations of it, '
+            'other good and bad texts, clear, disable+enable, and a restart from the persisted record. A case is '
+            'non-trivial when the text contains a call or is rejected; distinct = distinct (text outcome) pairs')
     CORRESPONDENCE = ('Parse.parse (parseFuel/parseCall/scan/step/finish/parsePort/parseLiteral, Syntax.Expr.print, '
                       'Parse.deps) <-> core.expressions.parse / Function.parse / PortExpression.parse / '
-                      'LiteralValue.parse / __str__ / get_deps')
-    TRUSTED = ['the registry and the decimal-digit table are read from the live modules and handed to the model '
-               '(theorems hold for every registry and table)',
+                      'LiteralValue.parse / __str__ / get_deps; Parse.parse on every text submitted to a port <-> '
+                      "BasePort.set_attr('expression') accept/refuse + get_expression(); Registry.enabled <-> the documented "
+                      'enabling condition of each function on the hub configuration set up by the harness')
+    TRUSTED = ['the registry (names, NAME, MIN/MAX_ARGS, ARG_KINDS, DEPS) and the decimal-digit table are read from the live '
+               'modules and handed to the model (theorems hold for every registry and table); the enabled flag is not: '
+               'HISTORY is known iff the harness configured samples support and history_support, every other function is '
+               'known; the live ENABLED attributes are checked against that (and for being a bool or a callable '
+               'returning a bool) in every run',
                'str.isspace table of the model is compared with CPython over all code points in every run']
     ASSUMPTIONS = ['texts are sequences of Unicode scalar values (Python strings with lone surrogates are not generated)',
                    'error positions/tokens are compared, and a difference is reported as a correspondence failure, '
@@ -86,8 +107,12 @@ class C03(Prop):
         from qtoggleserver.core.expressions import exceptions as ex
         from qtoggleserver.core.expressions import functions, literalvalues, port
         from qtoggleserver import persist
-        from qtoggleserver.core import history  # noqa
+        from qtoggleserver.core import history
+        import harness.persist_c03 as persist_c03
         self.settings = settings
+        self.persist = persist
+        self.history = history
+        self.SamplesDriver = persist_c03.SamplesDriver
         self.cx = core_expressions
         self.ex = ex
         self.functions = functions
@@ -98,6 +123,10 @@ class C03(Prop):
         self.loop = asyncio.new_event_loop()
         asyncio.set_event_loop(self.loop)
         self.loop.run_until_complete(persist.query('ports'))
+        for samples in (False, True):
+            self.SamplesDriver.samples_supported = samples
+            if persist.is_samples_supported() is not samples:
+                raise Broken('the samples support of the persistence driver of the harness cannot be switched')
         self._driver = None
         self.regs = {}
         self.ports_ready = False
@@ -108,16 +137,34 @@ class C03(Prop):
         except Exception:
             pass
 
+    OFF_MODES = ('hs', 'drv', 'both')
+
+    def _configure(self, slot, off='hs'):
+        """Put the hub in configuration slot 1 = history available (persistence driver with samples support and
+        core.history_support on) or slot 0 = history not available: off='hs' history_support off, 'drv' driver without
+        samples support, 'both'. Returns (samples supported, history_support)."""
+        samples = bool(slot) or off == 'hs'
+        hs = bool(slot) or off == 'drv'
+        self.SamplesDriver.samples_supported = samples
+        self.settings.core.history_support = hs
+        return samples, hs
+
+    @staticmethod
+    def _documented_enabled(name, cls, slot):
+        """The documented enabling condition of a function, evaluated on the hub configuration set up by the harness
+        (NOT the live ENABLED attribute, which is what the parser itself reads): HISTORY needs history (slot 1)."""
+        if name == 'HISTORY' or cls.NAME == 'HISTORY':
+            return bool(slot)
+        return True
+
     def _snapshot(self, hist):
-        """The live registry under history_support = hist."""
-        self.settings.core.history_support = bool(hist)
+        """The live registry (names, NAME, arities, kinds, deps) + the documented `enabled` of hub configuration hist."""
         F = self.functions
         classes = (self.LiteralValue, self.portmod.PortValue, self.portmod.SelfPortValue, self.portmod.PortRef,
                    self.portmod.SelfPortRef, F.Function)
         entries = []
         for name, cls in F.FUNCTIONS.items():
-            en = cls.ENABLED
-            enabled = not (not en or callable(en) and not en())
+            enabled = self._documented_enabled(name, cls, hist)
             kinds = []
             for k in list(cls.ARG_KINDS):
                 ks = k if isinstance(k, tuple) else (k,)
@@ -128,6 +175,41 @@ class C03(Prop):
             entries.append({'name': name, 'canon': cls.NAME, 'enabled': enabled, 'min': cls.MIN_ARGS,
                             'max': cls.MAX_ARGS, 'kinds': kinds, 'deps': sorted(cls.DEPS)})
         return entries
+
+    def _enabled_diagnostics(self):
+        """The live ENABLED attributes against the documented conditions, on every hub configuration; and their shape:
+        a bool, or a callable returning a bool (anything else is truthy for the parser whatever the hub)."""
+        out, shapes = [], []
+        for slot, off in ((1, 'hs'), (0, 'hs'), (0, 'drv'), (0, 'both')):
+            samples, hs = self._configure(slot, off)
+            conf = f'samples support {samples}, history_support {hs}'
+            try:
+                he = self.history.is_enabled()
+            except Exception as x:      # noqa
+                he = f'raises {type(x).__name__}'
+            if he is not bool(slot):
+                out.append(f'history.is_enabled() is {he!r} on a hub with {conf}')
+            for name, cls in self.functions.FUNCTIONS.items():
+                try:
+                    en = cls.ENABLED
+                    if isinstance(en, bool):
+                        live, shape = en, None
+                    elif callable(en):
+                        r = en()
+                        live = bool(r)
+                        shape = None if isinstance(r, bool) else f'a callable returning {type(r).__name__} {r!r}'
+                    else:
+                        live, shape = bool(en), f'{type(en).__name__} {en!r}'[:80]
+                except Exception as x:      # noqa
+                    live, shape = None, f'raises {type(x).__name__}: {x}'[:80]
+                if shape is not None:
+                    shapes.append(f'{name}.ENABLED read on the class is neither a bool nor a callable returning a bool: '
+                                  f'{shape}')
+                want = self._documented_enabled(name, cls, slot)
+                if live is not want:
+                    out.append(f'{name}.ENABLED read on the class counts as {live} on a hub with {conf}; documented: '
+                               f'{"known" if want else "unknown function"}')
+        return sorted(set(shapes)) + sorted(set(out))
 
     def _init_driver(self, driver):
         if self._driver is driver:
@@ -176,6 +258,30 @@ class C03(Prop):
             for h in (0, 1):
                 c.append({'kind': 'text', 'text': t, 'self': 'me', 'role': 1 + i % 4, 'hist': h, 'origin': 'corpus',
                           'expect': None, 'port': i % 3 == 0})
+        # functions that exist only on some hubs: HISTORY is an unknown function when history is off, however it is off
+        hist_texts = ['HISTORY(@a, 1552559696, 3600)', ' HISTORY( @a ,SUB(TIME(), 3600), -60 ) ',
+                      'SUB($a, HISTORY(@a, SUB(TIME(), 86400), 600))', 'IF(GT($a, HISTORY(@, 0, 10)), 1, 0)',
+                      'HISTORY(@a, 1)', 'HISTORY($a, 1, 2)', 'ADD(1, HISTORY(@a, 1, FOO(1)))', 'ADD(FOO(1), HISTORY(@a, 1, 2))']
+        for i, t in enumerate(hist_texts):
+            for h, off in ((1, 'hs'), (0, 'hs'), (0, 'drv'), (0, 'both')):
+                c.append({'kind': 'text', 'text': t, 'self': 'me', 'role': 1, 'hist': h, 'off': off, 'origin': 'corpus',
+                          'expect': None, 'port': i < 4, 'disabled': None if h or i == 7 else 'HISTORY'})
+        # sequences on one port: re-submissions of (mutations of) the text in place
+        S = lambda t: {'op': 'set', 'text': t}  # noqa
+        seqs = [
+            [S('ADD($a, MUL(22, 1.5))'), S('  ADD( $a ,MUL(22,1.5) )'), S('ADD($a, MUL(2 2, 1.5))'),
+             S('ADD($a, M UL(22, 1.5))'), S('ADD($ a, MUL(22, 1.5))'), S('ADD($a, MUL(22, 1. 5))'), S('ADD($a,MUL(22,1.5))')],
+            [S('MUL(100, $p1)'), S('MUL(10 0, $p1)'), S('MUL(100, $p 1)'), S('MUL(100, $p1)'), S(''), S('MUL(10 0, $p1)')],
+            [S(' SUB( $ ,1_000 )'), {'op': 'cur-ws', 'seed': 1, 'inside': True, 'base': 'canon'},
+             {'op': 'cur-ws', 'seed': 2, 'inside': True, 'base': 'rep'}, {'op': 'cur-nows', 'seed': 3, 'base': 'canon'},
+             {'op': 'reenable'}, {'op': 'cur-mut', 'seed': 4, 'base': 'canon'}, {'op': 'cur-same', 'seed': 5, 'base': 'rep'}],
+            [S('HISTORY(@a, 1, 2)'), S('HISTORY(@a, 1, 2)'), S('HIS TORY(@a, 1, 2)'), S('ADD(1, 2)'), S('ADD(1, HISTORY(@, 1, 2))')],
+            [S('ADD(1,'), S('true'), S('tr ue'), S('$p1'), S('$p 1'), S('$ p1'), S('-1'), S('- 1')],
+        ]
+        for i, steps in enumerate(seqs):
+            for h, off in ((1, 'hs'), (0, 'hs'), (0, 'drv')):
+                c.append({'kind': 'seq', 'self': ('me', 'p1', 'a')[i % 3], 'hist': h, 'off': off, 'steps': steps,
+                          'restart': True, 'origin': 'corpus'})
         c.append({'kind': 'litbatch', 'seed': 1, 'n': 2000})
         return c
 
@@ -406,11 +512,17 @@ class C03(Prop):
         r = rng.random()
         slot = 1 if rng.random() < 0.6 else 0
         base = {'kind': 'text', 'self': rng.choice(['me', 'p1', 'a', 'x.y-z']), 'role': rng.randint(1, 4), 'hist': slot,
-                'expect': None, 'port': rng.random() < 0.04}
+                'off': rng.choice(['hs', 'hs', 'drv', 'both']), 'expect': None, 'port': rng.random() < 0.04}
         if r < 0.005:
             return {'kind': 'litbatch', 'seed': rng.randrange(1 << 30), 'n': 300}
         maxd = 4 if tier == 'quick' else 6
         depth = rng.choice([0, 1, 1, 2, 2, 3, maxd])
+        if r < 0.035:
+            return self._gen_seq(rng, slot, base)
+        if r < 0.05 and slot == 0:
+            c = self._gen_disabled(rng, depth, base)
+            if c is not None:
+                return c
         if r < 0.40:
             t = self._tree(rng, slot, depth)
             canonical = rng.random() < 0.25
@@ -444,12 +556,139 @@ class C03(Prop):
             return {**base, 'text': self._ws(rng) + lit + self._ws(rng), 'origin': 'literal'}
         return {**base, 'text': f'ADD({self._ws(rng)}{lit}{self._ws(rng)}, 1)', 'origin': 'literal-arg'}
 
+    def _gen_disabled(self, rng, depth, base):
+        """A well-formed text (by the registry of a hub with history) that calls a function which is not available on
+        the hub of the case (slot 0): at top level or as an inner call."""
+        on0 = {e['name'] for e in self.regs[0] if e['enabled']}
+        cands = [e for e in self.regs[1] if e['enabled'] and e['name'] not in on0]
+        if not cands:
+            return None
+        f = rng.choice(cands)
+        lo = f['min'] or 0
+        hi = f['max'] if f['max'] is not None else lo + 2
+        inner = ['C', f['name'], [self._tree(rng, rng.choice([0, 1]), min(depth, 2),
+                                             f['kinds'][i] if i < len(f['kinds']) else self.DEFAULT_KIND)
+                                  for i in range(rng.randint(lo, max(lo, hi)))]]
+        t = inner
+        if rng.random() < 0.6:
+            outer = self._tree(rng, 0, max(1, min(depth, 3)), [False] * 5 + [True])
+            spots = []
+
+            def walk(x):
+                if x[0] == 'C':
+                    g = next(e for e in self.regs[0] if e['name'] == x[1])
+                    for i, a in enumerate(x[2]):
+                        k = g['kinds'][i] if i < len(g['kinds']) else self.DEFAULT_KIND
+                        if k[5]:
+                            spots.append((x, i))
+                        walk(a)
+            walk(outer)
+            if spots:
+                x, i = rng.choice(spots)
+                x[2][i] = inner
+                t = outer
+        canonical = rng.random() < 0.3
+        text = self._render(rng, t, canonical)
+        if not canonical:
+            text = self._ws(rng) + text + self._ws(rng)
+        return {**base, 'text': text, 'origin': 'disabled-fn', 'disabled': f['name']}
+
+    def _gen_seq(self, rng, slot, base):
+        """A sequence of submissions on one port: an accepted text first, then mostly re-submissions derived (at run
+        time, from the seed of the step) from exactly the text the port has in place."""
+        def good():
+            t = self._tree(rng, slot, rng.choice([1, 1, 2, 2, 3]), None if rng.random() < 0.15 else [False] * 5 + [True])
+            canonical = rng.random() < 0.5
+            text = self._render(rng, t, canonical)
+            return text if canonical else self._ws(rng) + text + self._ws(rng)
+
+        steps = [{'op': 'set', 'text': good()}]
+        for _ in range(rng.randint(2, 6)):
+            r = rng.random()
+            st = {'seed': rng.randrange(1 << 30), 'base': 'canon' if rng.random() < 0.7 else 'rep'}
+            if r < 0.45:
+                steps.append({'op': 'cur-ws', 'inside': rng.random() < 0.75, **st})
+            elif r < 0.53:
+                steps.append({'op': 'cur-same', **st})
+            elif r < 0.65:
+                steps.append({'op': 'cur-mut', **st})
+            elif r < 0.72:
+                steps.append({'op': 'cur-nows', **st})
+            elif r < 0.81:
+                steps.append({'op': 'set', 'text': good()})
+            elif r < 0.90:
+                steps.append({'op': 'set', 'text': self._mutate(rng, good(), slot)[0]})
+            elif r < 0.96:
+                steps.append({'op': 'reenable'})
+            else:
+                steps.append({'op': 'set', 'text': ''})
+        return {'kind': 'seq', 'self': base['self'], 'hist': slot, 'off': base['off'], 'steps': steps,
+                'restart': rng.random() < 0.3, 'origin': 'seq'}
+
+    def _step_text(self, step, canon, rep, slot):
+        """The text submitted by a step, given the canonical text of the expression in place and the reported text."""
+        op = step['op']
+        if op == 'set':
+            return step['text']
+        import random
+        rng = random.Random(step['seed'])
+        text = rep if step.get('base') == 'rep' and isinstance(rep, str) else canon
+        if op == 'cur-same':
+            return text
+        if op == 'cur-nows':
+            return ''.join(c for c in text if not c.isspace())
+        if op == 'cur-ws':
+            for _ in range(rng.choice([1, 1, 1, 2])):
+                sep = '(),'
+                inside = [i for i in range(1, len(text)) if text[i - 1] not in sep and text[i] not in sep and
+                          not text[i - 1].isspace() and not text[i].isspace()]
+                i = rng.choice(inside) if step.get('inside') and inside else rng.randint(0, len(text))
+                ws = ' ' if rng.random() < 0.5 else rng.choice(ASCII_WS + UNI_WS)
+                text = text[:i] + ws + text[i:]
+            return text
+        if op == 'cur-mut':
+            return self._mutate(rng, text, slot)[0]
+        raise Broken(f'unknown step {step!r}')
+
+    def _shrink_text(self, t):
+        n = len(t)
+        for size in (n // 2, n // 4, 3, 2, 1):
+            if size < 1:
+                continue
+            for i in range(0, n - size + 1, max(1, size // 2) if size > 2 else 1):
+                yield t[:i] + t[i + size:]
+
     def shrink_candidates(self, case):
+        if case.get('kind') == 'seq':
+            steps = case['steps']
+            base = {**case, 'origin': 'shrunk'}
+            if any(s['op'] not in ('set', 'reenable') for s in steps):
+                # the texts the symbolic steps stand for, so that the replay names every submitted text
+                try:
+                    self._configure(case['hist'], case.get('off', 'hs'))
+                    self._ensure_ports()
+                    texts = self.loop.run_until_complete(self._port_seq(case, None, texts_only=True))
+                    yield {**base, 'steps': [s if s['op'] == 'reenable' else {'op': 'set', 'text': t}
+                                             for s, t in zip(steps, texts)]}
+                except Broken:
+                    raise
+                except Exception:       # noqa
+                    pass
+            if case.get('restart'):
+                yield {**base, 'restart': False}
+            for i in range(len(steps) - 1, -1, -1):
+                yield {**base, 'steps': steps[:i] + steps[i + 1:]}
+            if len(steps) <= 3:
+                for i, s in enumerate(steps):
+                    if s['op'] == 'set' and len(s['text']) <= 60:
+                        for t in self._shrink_text(s['text']):
+                            yield {**base, 'steps': steps[:i] + [{'op': 'set', 'text': t}] + steps[i + 1:]}
+            return
         if case.get('kind') != 'text':
             return
         t = case['text']
         n = len(t)
-        base = {**case, 'expect': None, 'origin': 'shrunk', 'port': case.get('port', False)}
+        base = {**case, 'expect': None, 'origin': 'shrunk', 'port': case.get('port', False), 'disabled': None}
         for size in (n // 2, n // 4, 3, 2, 1):
             if size < 1:
                 continue
@@ -556,6 +795,7 @@ class C03(Prop):
             async def write_value(self, value):
                 self._v = value
 
+        self.VPort = VPort
         ports = self.loop.run_until_complete(core_ports.load([
             {'driver': VPort, 'port_id': pid} for pid in ('me', 'p1', 'a', 'x.y-z')]))
         for p in ports:
@@ -587,6 +827,153 @@ class C03(Prop):
         await port.set_attr('expression', '')
         return {'st': 'ok', 'stored': stored, 'again': again, 'saved': saved, 'canon': canon}
 
+    def _obs(self, e):
+        """What the property compares of an expression object (None = no expression)."""
+        if e is None:
+            return None
+        return {'print': str(e), 'tree': self._tree_of(e), 'deps': sorted(e.get_deps()), 'vals': self._values_of(e, [])}
+
+    async def _port_seq(self, case, driver, texts_only=False):
+        """Submissions in sequence on one (disabled, loaded) port. After every step: the text GET /ports reports, the
+        text prepare_for_save persists and the text reported once the attribute cache is dropped must each parse to the
+        expression that is live on the port (or be empty when there is none); a submission is accepted iff the grammar
+        (the model) accepts the submitted text, and then the live expression is the one the grammar gives.
+        -> (failure | None, tags), or the list of submitted texts when texts_only."""
+        cp = self.core_ports
+        pid, slot = case['self'], case['hist']
+        port = self.ports[pid]
+        tags = []
+        texts = []
+        log = []
+        fail = None
+
+        def P(msg, **kw):
+            return Failure('property', f'port {pid}, submissions {[t for t in texts if t is not None]!r}: {msg}',
+                           real={'steps': log, **kw})
+
+        await port.set_attr('expression', '')
+        for n, step in enumerate(case['steps']):
+            live0 = port.get_expression()
+            before = self._obs(live0)
+            if step['op'] == 'reenable':
+                texts.append(None)
+                if texts_only:
+                    continue
+                await port.enable()          # re-parses str(expression); no polling pass runs meanwhile
+                after = self._obs(port.get_expression())
+                await port.disable()
+                log.append({'op': 'reenable', 'live': after and after['print']})
+                tags.append('seq:reenable')
+                if after != before:
+                    fail = P(f'disable + enable changes the expression of the port from {before} to {after}')
+                    break
+                text, accepted = None, None
+            else:
+                canon = before['print'] if before else ''
+                text = self._step_text(step, canon, await port.get_attr('expression'), slot)
+                if any(0xD800 <= ord(c) <= 0xDFFF for c in text):
+                    text = canon
+                texts.append(text)
+                try:
+                    await port.set_attr('expression', text)
+                    accepted, reason = True, None
+                except cp.InvalidAttributeValue as x:
+                    accepted, reason = False, (getattr(x, 'details', None) or {}).get('reason')
+                except Exception as x:      # noqa
+                    if texts_only:
+                        continue
+                    fail = P(f'submitting {text!r} raises {type(x).__name__}: {str(x)[:100]}')
+                    break
+                if texts_only:
+                    continue
+                live = port.get_expression()
+                now = self._obs(live)
+                log.append({'op': step['op'], 'text': text, 'accepted': accepted, 'reason': reason,
+                            'live': now and now['print']})
+                tags.append(f'seq:{step["op"]}:' + ('accepted' if accepted else 'refused'))
+                if text == '':
+                    if not accepted or live is not None:
+                        fail = P(f'the empty text does not clear the expression (accepted={accepted}, live={now})')
+                        break
+                else:
+                    model = self._model_parse(driver, slot, pid, text)
+                    place = f'with {canon!r} in place' if before else 'with no expression in place'
+                    if accepted and model['st'] != 'ok':
+                        fail = P(f'{text!r} is ACCEPTED {place}, but it is not derivable from the grammar '
+                                 f'({model.get("reason")} at {model.get("pos")}, token {model.get("tok")!r})', model=model)
+                        break
+                    if not accepted and model['st'] == 'ok':
+                        if reason != 'circular-dependency':
+                            fail = P(f'{text!r} is REFUSED ({reason}) {place}, but it is derivable from the grammar as '
+                                     f'{model["print"]!r}', model=model)
+                            break
+                        tags.append('seq:circular')
+                    if accepted:
+                        if now is None or now['tree'] != model['tree'] or now['print'] != model['print']:
+                            fail = P(f'{text!r} is accepted {place}, but the expression of the port is now {now}; the '
+                                     f'grammar gives {model["tree"]} printed {model["print"]!r}', model=model)
+                            break
+                    else:
+                        if model['st'] == 'err' and reason != model['reason']:
+                            rv, _ = self._real_parse(pid, text, self.cx.ROLE_VALUE)
+                            kind = 'property' if rv['st'] != 'err' or rv['reason'] != reason else 'correspondence'
+                            fail = Failure(kind, f'port {pid}: {text!r} is refused {place} with reason {reason}; '
+                                           f'grammar: {model["reason"]}; parse(): {rv}', real={'steps': log, 'parse': rv},
+                                           model=model)
+                            break
+                        if now != before:
+                            fail = P(f'refused {text!r} changes the expression of the port from {before} to {now}')
+                            break
+            # ---- the texts the hub reports / persists, against the live expression
+            live = port.get_expression()
+            now = self._obs(live)
+            shown = [('reported by GET', await port.get_attr('expression')),
+                     ('persisted', (await port.prepare_for_save()).get('expression'))]
+            if n % 2 or step['op'] == 'reenable':
+                port.invalidate_attr('expression')
+                shown.append(('reported after the attribute cache is dropped', await port.get_attr('expression')))
+            for what, t in shown:
+                if now is None:
+                    if t not in ('', None):
+                        fail = P(f'the text {what} is {t!r}, but the port has no expression')
+                        break
+                    continue
+                r3, _ = self._real_parse(pid, t, self.cx.ROLE_VALUE) if isinstance(t, str) else ({'st': 'none'}, None)
+                if r3['st'] != 'ok':
+                    fail = P(f'the text {what} is {t!r}, which does not parse ({r3}); the live expression is '
+                             f'{now["print"]!r}', parse=r3)
+                    break
+                if any(r3[k] != now[k] for k in ('print', 'tree', 'deps', 'vals')):
+                    fail = P(f'the text {what} is {t!r}, which parses to {r3["print"]!r} {r3["tree"]}; the live '
+                             f'expression is {now["print"]!r} {now["tree"]}', parse=r3)
+                    break
+            if fail is not None:
+                break
+        if texts_only:
+            await port.set_attr('expression', '')
+            return texts
+        # ---- restart: a new port object loaded from the persisted record has the same expression
+        if fail is None and case.get('restart'):
+            before = self._obs(port.get_expression())
+            await port.save()
+            await port.remove(persisted_data=False)
+            new = (await cp.load([{'driver': self.VPort, 'port_id': pid}]))[0]
+            self.ports[pid] = new
+            if new.is_enabled():
+                await new.disable()
+            after = self._obs(new.get_expression())
+            tags.append('seq:restart:' + ('expr' if before else 'none'))
+            if after != before:
+                fail = P(f'restart: the expression of the port was {before and before["print"]!r} before; the port loaded '
+                         f'from the persisted record {(await new.prepare_for_save()).get("expression")!r} has '
+                         f'{after and after["print"]!r}', before=before, after=after)
+            port = new
+        await port.set_attr('expression', '')
+        if case.get('restart'):
+            await port.save()
+        tags.append(f'seq-len:{len(case["steps"])}')
+        return fail, tags
+
     # ------------------------------------------------------------------------------------------ running
     def _tables(self, driver):
         tags = ['tables']
@@ -605,6 +992,12 @@ class C03(Prop):
             todo = [p + c for p in todo for c in alpha]
             texts += todo
         f = self._lit_compare(driver, texts)
+        diag = self._enabled_diagnostics()
+        if diag and f is None:
+            f = Failure('correspondence', 'ENABLED of the live function classes vs. the documented enabling conditions: ' +
+                        '; '.join(diag[:6]), real=diag[:20], where='Registry.enabled <-> Function.ENABLED as read by '
+                        'Function.parse')
+        tags.append('enabled-attrs:' + ('odd' if diag else 'ok'))
         # hypothesis RegCanonical of theorem stored_text_reparses on the live registry (informational: a registry that
         # breaks it is judged by the fixpoint oracle on the real code, not here)
         for slot in (0, 1):
@@ -659,10 +1052,17 @@ class C03(Prop):
                     texts.append(b)
             return self._lit_compare(driver, texts), {'tags': ['litbatch'], 'key': None}
 
+        if kind == 'seq':
+            self._configure(case['hist'], case.get('off', 'hs'))
+            self._ensure_ports()
+            fail, tags = self.loop.run_until_complete(self._port_seq(case, driver))
+            tags += ['origin:seq', f'hist:{case["hist"]}' + ('' if case['hist'] else '/' + case.get('off', 'hs'))]
+            return fail, {'tags': tags, 'key': 'seq|' + repr(case['steps']), 'observed': None}
+
         text, self_id, role, slot = case['text'], case['self'], case['role'], case['hist']
         if any(0xD800 <= ord(c) <= 0xDFFF for c in text):
             return None, {'tags': ['skipped-surrogate'], 'key': None}
-        self.settings.core.history_support = bool(slot)
+        self._configure(slot, case.get('off', 'hs'))
         real, e1 = self._real_parse(self_id, text, role)
         model = self._model_parse(driver, slot, self_id, text)
         tags = ['origin:' + case.get('origin', '?').split('+')[0]]
@@ -680,6 +1080,16 @@ class C03(Prop):
             elif set(real['deps']) != self._expected_deps(exp, slot, self_id):
                 fail = Failure('property', f'dependencies of {text!r}: {real["deps"]} instead of '
                                f'{sorted(self._expected_deps(exp, slot, self_id))}', real=real)
+        # ---- oracle (a'): a call of a function that is not available on this hub is an unknown function
+        if fail is None and case.get('disabled') and not slot:
+            if real['st'] == 'ok':
+                fail = Failure('property', f'{text!r} calls {case["disabled"]}, which is not available on this hub '
+                               f'({self._conf_text(case)}), and is ACCEPTED as {real["print"]!r} instead of being refused '
+                               f'with unknown-function', real=real)
+            elif real['st'] == 'err' and (real['reason'], real['tok']) != ('unknown-function', case['disabled']):
+                fail = Failure('property', f'{text!r} calls {case["disabled"]}, which is not available on this hub '
+                               f'({self._conf_text(case)}): refused with {real["reason"]}/{real["tok"]!r} instead of '
+                               f'unknown-function/{case["disabled"]!r}', real=real)
         # ---- oracle (b): printing is a parse fixpoint
         if fail is None and real['st'] == 'ok':
             r2, _ = self._real_parse(self_id, real['print'], role)
@@ -700,7 +1110,7 @@ class C03(Prop):
             if real['st'] != model['st']:
                 fail = Failure('property', f'{text!r}: code {"accepts" if real["st"] == "ok" else "rejects"} but the '
                                f'text is {"" if model["st"] == "ok" else "not "}derivable from the grammar '
-                               f'(code: {real}; model: {model})', real=real, model=model)
+                               f'(hub: {self._conf_text(case)}; code: {real}; model: {model})', real=real, model=model)
             elif real['st'] == 'ok':
                 if real['tree'] != model['tree']:
                     fail = Failure('property', f'{text!r}: the accepted expression is {real["tree"]}, the grammar '
@@ -769,11 +1179,18 @@ class C03(Prop):
             tags.append('unicode-space')
         if any(ord(c) > 127 and c.isdecimal() for c in text):
             tags.append('unicode-digit')
-        tags.append('hist:' + str(slot))
+        tags.append('hist:' + str(slot) + ('' if slot else '/' + case.get('off', 'hs')))
         key = None
         if '(' in text or real['st'] != 'ok':
             key = text + '|' + (real.get('print') or real.get('reason') or real['st'])
         return fail, {'tags': tags, 'key': key, 'observed': real}
+
+    @staticmethod
+    def _conf_text(case):
+        if case['hist']:
+            return 'history on'
+        return {'hs': 'core.history_support off', 'drv': 'persistence driver without samples support',
+                'both': 'no samples support and core.history_support off'}[case.get('off', 'hs')]
 
     @staticmethod
     def _fields(reason):
